@@ -13,7 +13,7 @@ S: the property's clauses evaluated directly on the implementation's answers:
    (c) programs that need plugin externals are refused (at emit time, or by a run-time error naming the external) - never Rust that
        fails to build, never different samples.
 """
-import glob, json, os, re, shutil, struct
+import glob, json, os, re, shutil, struct, time
 from vplib import *
 import lmmm
 from lmmm import *
@@ -42,7 +42,8 @@ def scaffold_methods():
 
 
 def fn_names_of_source(src):
-    return re.findall(r"\bfn\s+([A-Za-z_][A-Za-z0-9_]*)\s*\(", src)
+    """names that become MIR function labels: `fn f(`, `letrec f =`, `let f =` (a let-bound lambda is labelled by its binder)"""
+    return re.findall(r"\b(?:fn|letrec|let)\s+([A-Za-z_][A-Za-z0-9_]*)\b", src)
 
 
 def name_clash(src, methods=None):
@@ -227,6 +228,290 @@ def lmmm_cases(ck, n_cases, n_samples):
 
 
 # ---------------------------------------------------------------------------------------------------------
+# second generator ("xgen"): typed random programs over the part of the core language the Lmmm model does not cover
+# (closures with captured/assigned variables, makers, higher-order functions, tuples and destructuring, tuple-valued self,
+#  recursion, arrays, pipes, blocks, non-integer arithmetic and the math intrinsics). Oracle: the real VM only.
+# One delay size per program (never class F3); branching constructs never inside a tuple literal (never class F13).
+# ---------------------------------------------------------------------------------------------------------
+XLITS = ["0.0", "1.0", "2.0", "3.0", "(-1.0)", "0.5", "0.25", "1.5", "(-2.5)", "0.1", "10.0", "7.0"]
+F21_BUILTINS = ["round", "floor", "ceil", "not", "tan", "sinh", "cosh", "tanh", "asin", "acos", "atan", "atan2"]
+
+
+def uses_missing_builtin(src):
+    """class predicate of finding F21: the program calls a built-in math function the generated runtime does not provide"""
+    return any(re.search(r"(?<![A-Za-z0-9_])%s\s*\(" % b, src) for b in F21_BUILTINS)
+
+
+class XGen:
+    def __init__(self, rng, builtins21=False):
+        self.r = rng
+        self.k = 0
+        self.dsize = rng.choice([1, 2, 3, 5])
+        self.funs = []          # dict(name, kind, arity, stateful)
+        self.b21 = builtins21
+
+    def fresh(self, p):
+        self.k += 1
+        return "%s%d" % (p, self.k)
+
+    def vars_of(self, env, ty):
+        return [n for n, t in env if t == ty]
+
+    # ---- float expressions -------------------------------------------------------------------------------
+    def leaf(self, env, fn, st):
+        r = self.r
+        c = r.below(10)
+        fv = self.vars_of(env, 'f')
+        if c < 5 and fv:
+            return r.choice(fv)
+        if c < 6 and fn and st:
+            return "self"
+        if c < 7 and r.chance(1, 2):
+            return "now"
+        tv = [(n, t) for n, t in env if t in ('t2', 't3')]
+        if c < 8 and tv:
+            n, t = r.choice(tv)
+            return "%s.%d" % (n, r.below(int(t[1])))
+        return r.choice(XLITS)
+
+    def fexpr(self, d, env, fn=False, noif=False, st=True):
+        """float-valued expression; fn: inside a named function (self allowed); noif: no branching / block constructs;
+        st: stateful constructs (self/mem/delay/stateful calls) allowed"""
+        r = self.r
+        if d <= 0 or r.chance(1, 6):
+            return self.leaf(env, fn, st)
+        sub = lambda dd=d - 1, **kw: self.fexpr(dd, env, fn, kw.get('noif', noif), kw.get('st', st))
+        c = r.below(40)
+        if c < 8:
+            op = r.choice(["+", "-", "*", "+", "-", "*", "/", "%"])
+            return "(%s %s %s)" % (sub(), op, sub())
+        if c < 11:
+            return "(%s %s %s)" % (sub(), r.choice(["<", "<=", ">", ">=", "==", "!=", "&&", "||"]), sub())
+        if c < 13:
+            return "%s(%s, %s)" % (r.choice(["min", "max"]), sub(), sub())
+        if c < 16:
+            u = r.choice(["sqrt", "abs", "sin", "cos", "log", "neg"])
+            if u == "neg":
+                return "(-%s)" % sub()
+            return "%s(%s)" % (u, sub())
+        if c < 17:
+            if self.b21:
+                b = r.choice(F21_BUILTINS)
+                return "%s(%s, %s)" % (b, sub(), sub()) if b == "atan2" else "%s(%s)" % (b, sub())
+            return "(%s ^ %s)" % (sub(), r.choice(["2.0", "0.5", "3.0"]))
+        if c < 20 and not noif:
+            return "(if (%s) { %s } else { %s })" % (sub(), sub(), sub())
+        if c < 22 and not noif:
+            t = self.fresh("b")
+            return "{ let %s = %s\n    %s }" % (t, sub(), self.fexpr(d - 1, env + [(t, 'f')], fn, noif, st))
+        if c < 27:
+            cands = [f for f in self.funs if f["kind"] == "f1" and (st or not f["stateful"])]
+            if cands:
+                f = r.choice(cands)
+                return "%s(%s)" % (f["name"], ", ".join(sub() for _ in range(f["arity"])))
+        if c < 30:
+            cv = self.vars_of(env, 'ff')
+            if cv:
+                return "%s(%s)" % (r.choice(cv), sub())
+            uv = self.vars_of(env, 'uf')
+            if uv:
+                return "%s()" % r.choice(uv)
+        if c < 32:
+            hs = [f for f in self.funs if f["kind"] == "hof"]
+            if hs:
+                h = r.choice(hs)
+                cv = self.vars_of(env, 'ff')
+                if cv and r.chance(1, 2):
+                    arg = r.choice(cv)
+                else:
+                    y = self.fresh("y")
+                    arg = "|%s| { %s }" % (y, self.fexpr(min(d - 1, 2), env + [(y, 'f')], False, True, False))
+                return "%s(%s, %s)" % (h["name"], arg, sub())
+        if c < 33:
+            rs = [f for f in self.funs if f["kind"] == "rec"]
+            if rs:
+                return "%s(min(max(%s, 0.0), 4.0))" % (r.choice(rs)["name"], sub())
+        if c < 34:
+            av = [(n, t) for n, t in env if t.startswith('arr')]
+            if av:
+                n, t = r.choice(av)
+                ln = int(t[3:])
+                return "%s[%s]" % (n, "%d.0" % r.below(ln) if r.chance(2, 3) else "min(max(%s, 0.0), %d.0)" % (sub(), ln - 1))
+        if c < 35:
+            cands = [f for f in self.funs if f["kind"] == "f1" and f["arity"] == 1 and (st or not f["stateful"])]
+            if cands:
+                return "(%s |> %s)" % (sub(), r.choice(cands)["name"])
+        if c < 36:
+            ts = [f for f in self.funs if f["kind"] == "tself"]
+            if ts and st:
+                return "%s(%s).%d" % (r.choice(ts)["name"], sub(), r.below(2))
+        if st:
+            if c < 38:
+                return "mem(%s)" % sub()
+            if c < 39:
+                return "delay(%d.0, %s, %s)" % (self.dsize, sub(), r.choice(["0.0", "1.0", "2.0", "1.5", sub(d - 2, st=False)]))
+        return self.leaf(env, fn, st)
+
+    def texpr(self, n, d, env, fn=False, st=True):
+        r = self.r
+        tv = self.vars_of(env, 't%d' % n)
+        c = r.below(10)
+        if c < 2 and tv:
+            return r.choice(tv)
+        tf = [f for f in self.funs if f["kind"] == "tup" and f["n"] == n]
+        if c < 5 and tf:
+            return "%s(%s)" % (r.choice(tf)["name"], self.fexpr(d - 1, env, fn, False, st))
+        return "(" + ", ".join(self.fexpr(d - 1, env, fn, True, st) for _ in range(n)) + ")"
+
+    # ---- statements --------------------------------------------------------------------------------------
+    def stmts(self, nmax, d, env, fn=False, st=True):
+        """returns (lines, env')"""
+        r = self.r
+        env = list(env)
+        lines = []
+        mut = []
+        for _ in range(r.below(nmax + 1)):
+            c = r.below(12)
+            if c < 5:
+                x = self.fresh("v")
+                lines.append("let %s = %s" % (x, self.fexpr(d, env, fn, False, st)))
+                env.append((x, 'f'))
+                mut.append(x)
+            elif c < 7:
+                n = r.choice([2, 2, 3])
+                names = [self.fresh("p") for _ in range(n)]
+                lines.append("let (%s) = %s" % (", ".join(names), self.texpr(n, d, env, fn, st)))
+                env += [(x, 'f') for x in names]
+            elif c < 8:
+                n = r.choice([2, 3])
+                x = self.fresh("t")
+                lines.append("let %s = %s" % (x, self.texpr(n, d, env, fn, st)))
+                env.append((x, 't%d' % n))
+            elif c < 10:
+                y, x = self.fresh("y"), self.fresh("c")
+                lines.append("let %s = |%s| { %s }" % (x, y, self.fexpr(min(d, 2), env + [(y, 'f')], False, True, False)))
+                env.append((x, 'ff'))
+            elif c < 11 and mut:
+                x = r.choice(mut)
+                lines.append("%s = %s" % (x, self.fexpr(d - 1, env, fn, False, st)))
+            else:
+                ln = r.choice([2, 3, 4])
+                x = self.fresh("a")
+                lines.append("let %s = [%s]" % (x, ", ".join(self.fexpr(1, env, fn, True, False) for _ in range(ln))))
+                env.append((x, 'arr%d' % ln))
+        return lines, env
+
+    @staticmethod
+    def is_stateful(text, funs):
+        if re.search(r"\b(self|mem|delay)\b", text):
+            return True
+        return any(f["stateful"] and re.search(r"\b%s\(" % f["name"], text) for f in funs)
+
+    # ---- top level ---------------------------------------------------------------------------------------
+    def program(self):
+        r = self.r
+        out = []
+        genv = []
+        for _ in range(r.below(6)):
+            kind = r.choice(["f1", "f1", "f1", "tup", "hof", "mk", "mk0", "rec", "tself"])
+            name = self.fresh({"f1": "fa", "tup": "ft", "hof": "fh", "mk": "mk", "mk0": "mz", "rec": "fr", "tself": "fs"}[kind])
+            d = r.range(1, 3)
+            if kind == "f1":
+                ps = [self.fresh("q") for _ in range(r.below(3))]
+                lines, env = self.stmts(2, d, genv + [(p, 'f') for p in ps], True, True)
+                body = lines + [self.fexpr(d + 1, env, True, False, True)]
+                txt = "fn %s(%s){\n  %s\n}" % (name, ", ".join(ps), "\n  ".join(body))
+                self.funs.append({"name": name, "kind": "f1", "arity": len(ps), "stateful": self.is_stateful("\n".join(body), self.funs)})
+            elif kind == "tup":
+                n = r.choice([2, 2, 3])
+                x = self.fresh("q")
+                lines, env = self.stmts(1, d, genv + [(x, 'f')], False, False)
+                body = lines + ["(" + ", ".join(self.fexpr(d, env, False, True, False) for _ in range(n)) + ")"]
+                txt = "fn %s(%s){\n  %s\n}" % (name, x, "\n  ".join(body))
+                self.funs.append({"name": name, "kind": "tup", "n": n, "stateful": False})
+            elif kind == "hof":
+                f, y = self.fresh("g"), self.fresh("q")
+                body = self.fexpr(d + 1, genv + [(f, 'ff'), (y, 'f')], False, False, False)
+                txt = "fn %s(%s:(float)->float, %s:float){\n  %s\n}" % (name, f, y, body)
+                self.funs.append({"name": name, "kind": "hof", "stateful": False})
+            elif kind == "mk":
+                a, s_, x, f = self.fresh("q"), self.fresh("s"), self.fresh("y"), self.fresh("c")
+                env = genv + [(a, 'f'), (s_, 'f'), (x, 'f')]
+                upd = "%s = %s\n    " % (s_, self.fexpr(d, env, False, True, False)) if r.chance(3, 4) else ""
+                txt = "fn %s(%s){\n  let %s = %s\n  let %s = |%s| {\n    %s%s\n  }\n  %s\n}" % (
+                    name, a, s_, a, f, x, upd, self.fexpr(d, env, False, True, False), f)
+                self.funs.append({"name": name, "kind": "mk", "stateful": False})
+            elif kind == "mk0":
+                s_, f, t = self.fresh("s"), self.fresh("c"), self.fresh("w")
+                env = genv + [(s_, 'f')]
+                txt = "fn %s(){\n  let %s = %s\n  let %s = | |{\n    let %s = %s\n    %s = %s\n    %s\n  }\n  %s\n}" % (
+                    name, s_, r.choice(XLITS), f, t, s_, s_, self.fexpr(d, env, False, True, False), t, f)
+                self.funs.append({"name": name, "kind": "mk0", "stateful": False})
+            elif kind == "rec":
+                n = self.fresh("q")
+                txt = "fn %s(%s){\n  if (%s > 0.0) {\n    %s(%s - 1.0) %s %s\n  } else {\n    %s\n  }\n}" % (
+                    name, n, n, name, n, r.choice(["+", "*", "-"]), self.fexpr(d, genv + [(n, 'f')], False, True, False), r.choice(XLITS))
+                self.funs.append({"name": name, "kind": "rec", "stateful": False})
+            else:
+                x, a, b = self.fresh("q"), self.fresh("p"), self.fresh("p")
+                env = genv + [(x, 'f'), (a, 'f'), (b, 'f')]
+                txt = "fn %s(%s)->(float,float){\n  let (%s, %s) = self\n  (%s, %s)\n}" % (
+                    name, x, a, b, self.fexpr(d, env, False, True, False), self.fexpr(d, env, False, True, False))
+                self.funs.append({"name": name, "kind": "tself", "stateful": True})
+            out.append(txt)
+            # globals between functions
+            if r.chance(1, 3):
+                c = r.below(4)
+                if c == 0:
+                    g = self.fresh("g")
+                    out.append("let %s = %s" % (g, self.fexpr(2, [(n_, t_) for n_, t_ in genv if t_ == 'f'], False, True, False).replace("now", "1.0")))
+                    genv.append((g, 'f'))
+                elif c == 1:
+                    mks = [f for f in self.funs if f["kind"] == "mk"]
+                    if mks:
+                        g = self.fresh("k")
+                        out.append("let %s = %s(%s)" % (g, r.choice(mks)["name"], r.choice(XLITS)))
+                        genv.append((g, 'ff'))
+                elif c == 2:
+                    mks = [f for f in self.funs if f["kind"] == "mk0"]
+                    if mks:
+                        g = self.fresh("u")
+                        out.append("let %s = %s()" % (g, r.choice(mks)["name"]))
+                        genv.append((g, 'uf'))
+                else:
+                    ln = r.choice([2, 3, 4])
+                    g = self.fresh("a")
+                    out.append("let %s = [%s]" % (g, ", ".join(r.choice(XLITS) for _ in range(ln))))
+                    genv.append((g, 'arr%d' % ln))
+        has_in = r.chance(1, 3)
+        x = self.fresh("i")
+        env = genv + ([(x, 'f')] if has_in else [])
+        lines, env = self.stmts(3, r.range(1, 3), env, False, True)
+        nout = r.choice([1, 1, 1, 2, 3])
+        if nout == 1:
+            last = self.fexpr(r.range(2, 4), env, False, False, True)
+        else:
+            last = "(" + ", ".join(self.fexpr(r.range(1, 3), env, False, True, True) for _ in range(nout)) + ")"
+        out.append("fn dsp(%s){\n  %s\n}" % ((x + ":float") if has_in else "", "\n  ".join(lines + [last])))
+        return "\n".join(out) + "\n", has_in
+
+
+XIN = [0.0, 1.0, -1.0, 0.5, 2.0, -0.25, 3.0, 0.1, 10.0, -3.5]
+
+
+def xgen_cases(ck, n_cases, n_samples):
+    out = []
+    for i in range(n_cases):
+        r = ck.rng.fork(("C18x", i))
+        g = XGen(r, builtins21=(i % 16 == 15))
+        src, has_in = g.program()
+        rin = r.fork("in")
+        inputs = [[rin.choice(XIN)] for _ in range(n_samples)] if has_in else None
+        out.append(mk_case("xgen", "xgen%d" % i, src, n_samples, inputs=inputs))
+    return out
+
+
+# ---------------------------------------------------------------------------------------------------------
 # running
 # ---------------------------------------------------------------------------------------------------------
 def vm_requests(cases):
@@ -314,15 +599,15 @@ def judge(c, R, V, W, ref_bits, findings, methods):
             len(R["samples"]), R["msg"], "runs on" if V["st"] == "ok" else V["st"] + " " + V["msg"])
     else:
         why = "the VM %s (%s) where the generated Rust runs" % (V["st"], V["msg"])
-    hits = [k for k in ("F2", "F3", "F13") if k in c["cls"] and k in findings]
+    hits = [k for k in ("F3", "F13") if k in c["cls"] and k in findings]
     if hits:
         # known defects of the VM / of the shared MIR lowering: the oracle is the reference semantics, else the WASM runtime
         if full_R and ref_bits is not None and R["samples"] == ref_bits:
             return ("known", hits[0], src1 + " -> rust = reference semantics; " + why[:120])
         if full_R and W["st"] == "ok" and R["samples"] == W["samples"]:
             return ("known", hits[0], src1 + " -> rust = WASM; " + why[:120])
-        if "F2" in hits and V["st"] == "panic" and R["st"] == "run" and R["samples"] == V["samples"]:
-            return ("known", "F2", src1 + " -> both stop at sample %d" % len(R["samples"]))
+        if "F13" in hits and V["st"] == "compile_panic" and R["st"] == "run" and not R["samples"] and "invalid memory handle" in R["msg"]:
+            return ("known", "F13", src1 + " -> VM: compiler panic; generated Rust: " + R["msg"][:80])
         if V["st"] == "absent" and W["st"] == "ok" and full_R and R["samples"] == W["samples"]:
             return ("ok", "rust_eq_wasm_vm_skipped")
         return fail(why + " (program in class %s, but the generated Rust equals neither the reference semantics nor WASM)" % "/".join(hits),
@@ -330,6 +615,125 @@ def judge(c, R, V, W, ref_bits, findings, methods):
     if V["st"] == "absent":
         return ("ok", "vm_not_run")
     return fail(why, rust_first=R["samples"][:6], vm_first=V["samples"][:6])
+
+
+# ---------------------------------------------------------------------------------------------------------
+# shrinking a failing source (text level: delete lines / items, replace bracketed groups by a literal or by one of their parts)
+# ---------------------------------------------------------------------------------------------------------
+def failure_signature(R, V):
+    if R["st"] == "rustc":
+        m = re.search(r"error(\[E\d+\])?", R["msg"])
+        return "rustc" + ((m.group(1) or "") if m else "")
+    if R["st"] == "run" and V["st"] == "ok":
+        return "rust-run-fails"
+    if R["st"] == "ok" and V["st"] == "ok" and R["samples"] != V["samples"]:
+        return "samples-differ"
+    if R["st"] in ("refused", "emit_panic") and V["st"] == "ok":
+        return "rust-" + R["st"]
+    return None
+
+
+def _spans(src):
+    """balanced bracket groups (start, end_exclusive, with an adjacent callee identifier included)"""
+    out, stack = [], []
+    for i, ch in enumerate(src):
+        if ch in "({[":
+            stack.append(i)
+        elif ch in ")}]" and stack:
+            a = stack.pop()
+            out.append((a, i + 1))
+            m = re.search(r"[A-Za-z_][A-Za-z0-9_]*$", src[:a])
+            if m and src[a] == "(" and not src[:m.start()].rstrip().endswith("fn"):
+                out.append((m.start(), i + 1))
+    return out
+
+
+def _parts(txt):
+    """top-level parts of a group's content: split at depth-0 commas and at depth-0 binary operators written with spaces"""
+    inner = txt[txt.find(txt.lstrip("abcdefghijklmnopqrstuvwxyzABCDEFGHIJKLMNOPQRSTUVWXYZ_0123456789")[0]) + 1:-1] if txt else ""
+    parts, depth, cur, i = [], 0, "", 0
+    while i < len(inner):
+        ch = inner[i]
+        if ch in "({[":
+            depth += 1
+        elif ch in ")}]":
+            depth -= 1
+        if depth == 0 and ch == ",":
+            parts.append(cur); cur = ""; i += 1; continue
+        if depth == 0 and ch == " ":
+            m = re.match(r" (\+|-|\*|/|%|\^|<=|>=|<|>|==|!=|&&|\|\||\|>) ", inner[i:])
+            if m:
+                parts.append(cur); cur = ""; i += len(m.group(0)); continue
+        cur += ch
+        i += 1
+    parts.append(cur)
+    return [p.strip() for p in parts if p.strip() and p.strip() != inner.strip()]
+
+
+def shrink_candidates(src):
+    cands = set()
+    lines = src.split("\n")
+    for i in range(len(lines)):
+        if lines[i].strip():
+            cands.add("\n".join(lines[:i] + lines[i + 1:]))
+    # top-level items
+    for m in re.finditer(r"^(fn|let) ", src, re.M):
+        depth, j, seen = 0, m.start(), False
+        while j < len(src):
+            if src[j] in "({[":
+                depth += 1; seen = True
+            elif src[j] in ")}]":
+                depth -= 1
+            if src[j] == "\n" and depth == 0 and (seen or src.startswith("let", m.start())):
+                break
+            j += 1
+        cands.add(src[:m.start()] + src[j + 1:])
+    for a, b in _spans(src):
+        g = src[a:b]
+        if g[0] in "{[" and not g.startswith("{ let"):
+            reps = []
+        else:
+            reps = ["1.0", "0.0"]
+        if g.startswith("(if "):
+            reps += re.findall(r"\{ ((?:[^{}]|\{[^{}]*\})*) \}", g)[:2]
+        if g.startswith("{ let"):
+            reps.append(g[1:-1].split("\n")[-1].strip())
+        if g[0] != "{":
+            reps += _parts(g)
+        for rp in reps:
+            if rp and rp != g:
+                cands.add(src[:a] + rp + src[b:])
+    ok = []
+    for c in cands:
+        if c.count("(") == c.count(")") and c.count("{") == c.count("}") and "fn dsp" in c and len(c) < len(src):
+            ok.append(c)
+    return sorted(ok, key=len)
+
+
+def shrink(case, sig, rexe, vexe, budget_s=60, log=None):
+    """greedy: per round evaluate the candidates (smallest first, in parallel) and keep the smallest that fails the same way"""
+    t0 = time.time()
+    cur = dict(case)
+    rounds = 0
+    while time.time() - t0 < budget_s:
+        cands = shrink_candidates(cur["src"])[:96]
+        if not cands:
+            break
+        cs = [dict(cur, src=c, prog=None, cls=set()) for c in cands]
+        rres = run_impl(rexe, rust_requests(cs), shards=NPROC)
+        vres = run_impl(vexe, vm_requests(cs), shards=min(NPROC, 8))
+        best = None
+        for c, a, b in zip(cs, rres, vres):
+            R = rust_status(a)
+            V = backend_status((b or {}).get("vm")) if b and 'crash' not in b else {"st": "panic", "samples": [], "msg": ""}
+            if failure_signature(R, V) == sig:
+                best = c
+                break
+        if best is None:
+            break
+        cur = best
+        rounds += 1
+    return cur["src"], rounds
 
 
 def run(ck):
@@ -399,7 +803,9 @@ def run(ck):
             if verdict[1] == "rust_eq_vm":
                 distinct.add(c["src"])
                 if ref_bits is not None and not c["cls"]:
-                    bump("three_way_equal" if ref_bits == R["samples"] else "rust_eq_vm_but_not_reference(see C02)")
+                    # the reference semantics computes over integers: it cannot tell -0.0 from 0.0
+                    unz = lambda rows: [["0000000000000000" if h == "8000000000000000" else h for h in row] for row in rows]
+                    bump("three_way_equal" if unz(ref_bits) == unz(R["samples"]) else "rust_eq_vm_but_not_reference(see C02)")
                 if c["kind"] == "fixture" and c.get("expected") is not None:
                     got = [bits_to_float(h) for row in R["samples"] for h in row]
                     exp = c["expected"]
@@ -422,7 +828,7 @@ def run(ck):
     ck.coverage["fixtures_run"] = len(fixtures)
     ck.coverage["stats"] = dict(sorted(stats.items()))
     ck.coverage["feature_totals_generated"] = feats
-    ck.coverage["classes_generated"] = {k: sum(1 for c in cases if k in c["cls"]) for k in ("F2", "F3", "F13")}
+    ck.coverage["classes_generated"] = {k: sum(1 for c in cases if k in c["cls"]) for k in ("F3", "F13")}
     if rustc_ms:
         ck.coverage["rustc_ms_median"] = sorted(rustc_ms)[len(rustc_ms) // 2]
     gen_idx = [i for i, c in enumerate(cases) if c["kind"] == "gen"]
@@ -439,6 +845,8 @@ def run(ck):
                                    ".cache/target/lang/debug/rustgen_run ; same request to lmmm_run for the VM)"})
     if len(viol) > 6:
         ck.coverage["violations_not_printed"] = len(viol) - 6
+    if viol:
+        ck.coverage["violation_summaries"] = [(cases[i]["name"], what[:160]) for what, i, det in viol[:40]]
     if harness_err and not viol:
         ck.broken.append("rustc could not be launched / scratch dir not writable: " + harness_err[0][0])
         ck.violation("the rustc pipeline of the harness is broken", {"detail": harness_err[0][0], "count": len(harness_err)}, no_input=True)
@@ -455,12 +863,12 @@ def finish(ck):
                      "text by translators/rustrt_template.py) agree with the cursor machine's primitives of Lmmm/Machine.v wherever the VM "
                      "discipline is defined. COMPARED (not proved): everything else - rustgen.rs is not modelled; generated core programs and the "
                      "shipped fixtures are emitted, compiled with rustc and run, and every output sample is compared bit for bit with the real VM "
-                     "and with the extracted reference semantics; programs in the classes of the known VM/MIR defects F2/F3/F13 are compared with "
+                     "and with the extracted reference semantics; programs in the classes of the known VM/MIR defects F3/F13 are compared with "
                      "the reference semantics / WASM instead. Plugin-dependent programs must be refused (at emit time or by a run-time error naming "
                      "the external)."),
         trusted_base=["rustc 2024 edition (the repo's own recipe: rustc --edition=2024 <generated source + mimium_test_main.rs.template>)",
                       "harness/lang rustgen_run (host: current_time = sample index, sample_rate = 48000, every external refused) and lmmm_run",
                       "lib/lmmm.py generator and pretty-printer", "Coq 8.16.1 kernel, extraction, ocaml/lmmm_drv.ml (reference semantics)"],
         rule=("fixtures of rust_codegen_test.rs first; then function-name pool (Rust keywords, scaffold method names, controls); plugin probes; "
-              "type-directed Lmmm generator (1 case in 8 allows stateful constructs in `if` arms = class F2); "
+              "type-directed Lmmm generator (1 case in 8 allows stateful constructs in `if` arms); "
               "distinct_nontrivial = distinct sources whose generated Rust ran and equalled the VM at every sample"))
